@@ -44,9 +44,9 @@ func recoverCall(f func()) (p any) {
 
 func init() {
 	engine.Register(&engine.Check{
-		ID:        "C05",
-		Title:     "Overlap detection answers exactly whether two voxel sets intersect",
-		Technique: "exhaustive choice-tree enumeration (E1): all ordered pairs of the voxels of each world, all pairs of short lists, both implementations, against the ancestor-relation reference model",
+		ID:          "C05",
+		Title:       "Overlap detection answers exactly whether two voxel sets intersect",
+		Technique:   "exhaustive choice-tree enumeration (E1): all ordered pairs of the voxels of each world, all pairs of short lists, both implementations, against the ancestor-relation reference model",
 		Assumptions: []string{"voxels outside the worlds (root classes x 2 levels of descendants x ancestors) and lists longer than 3 are not covered", "reference model: ref.Overlap"},
 		Phases: func(tier string) []engine.Phase {
 			ws := worlds(tier)
